@@ -27,12 +27,15 @@ Core Lean only (linked into `model-c13`).
 
 namespace Aergo.Pool
 
-/-- A pooled transaction: sender account, nonce, hash identifier, amount(+fee) it needs. -/
+/-- A pooled transaction: the account it is filed under (the sender address; for a transaction whose
+sender field is an account *name*, the verified address the name resolves to), nonce, hash identifier,
+amount(+fee) it needs, and whether the sender field is a name (`HasVerifedAccount`). -/
 structure Tx where
   acc : Nat
   nonce : Nat
   id : Nat
   cost : Nat
+  named : Bool
 deriving DecidableEq, Repr, Inhabited
 
 /-- `types.State` as far as the pool reads it. -/
@@ -225,14 +228,25 @@ def Pool.put (P : Pool) (tx : Tx) : Pool × PutRes :=
                           cache := cacheStore tx P1.cache, length := P1.length + 1 }
       (P2.release tx.acc, .ok)
 
+/-- The body of `MemPool.removeTx` once the list key is known: acquire, `RemoveTx`, `orphan += n`,
+release, `cache.Delete`, `length--` (the last two also when the list did not hold the transaction). -/
+def Pool.removeAt (P : Pool) (key id : Nat) : Pool :=
+  let P1 := (P.acquire key).1
+  let L := (P.acquire key).2
+  let P2 := { P1 with lists := setL key (L.remove id).1 P1.lists, orphan := P1.orphan + (L.remove id).2.1 }
+  let P3 := P2.release key
+  { P3 with cache := cacheDel id P3.cache, length := P3.length - 1 }
+
+/-- The list key `removeTx` uses: the account field `a` of the transaction handed in, unless the pooled
+transaction with that hash was filed under a verified address (name sender): then that address. -/
+def Pool.removeKey (P : Pool) (a id : Nat) : Nat :=
+  match P.cache.find? (fun t => t.id == id) with
+  | some t => if t.named then t.acc else a
+  | none => a
+
 /-- `MemPool.removeTx(tx)`: `a` is the account field of the given tx, `id` its hash. -/
 def Pool.removeTx (P : Pool) (a id : Nat) : Pool × Bool :=
-  if !cacheHas id P.cache then (P, false) else
-  let P1 := (P.acquire a).1
-  let L := (P.acquire a).2
-  let P2 := { P1 with lists := setL a (L.remove id).1 P1.lists, orphan := P1.orphan + (L.remove id).2.1 }
-  let P3 := P2.release a
-  ({ P3 with cache := cacheDel id P3.cache, length := P3.length - 1 }, true)
+  if !cacheHas id P.cache then (P, false) else (P.removeAt (P.removeKey a id) id, true)
 
 /-- `for _, tx := range txs { mp.cache.Delete(id); mp.length-- }`. -/
 def Pool.dropTxs (P : Pool) (txs : List Tx) : Pool :=
